@@ -15,6 +15,8 @@ TEXT = {
  "C11": "Proof (Coq) of non-interference: what any server call does to connection id is a function of that connection's own state (server_frame, lifted to call sequences), broadcast performs exactly one send_message on every present connection (minus the excluded one) and nothing else, received messages are attributed to the connection they were processed on.",
  "C12": "Proof (Coq) that a disconnected connection keeps its first reason for every later call sequence and emits/accepts/yields nothing, that server events alternate Connected/Disconnected per id for every call sequence, and that removal reports the connection's first reason (Transport / DisconnectedByClient defaults).",
  "C13": "Proof (Coq) of the closed-form serialized length of every packet kind, that serialization of well-formed packets fails only for lack of buffer, and that at most MAX_ACK_RANGES ranges are kept (so an ack packet is at most 1 + 4*8 + 16*63 bytes). The bound for the packing loops and the netcode datagram bound are being added; the monitor checks every emitted length.",
+ "C14": "Proof (Coq) that the payload bytes carried by the packets of one send-channel call equal the budget it consumed (never more), for both channel kinds, that what does not fit is left untouched with its timer (reliable) or dropped whole from the queue (unreliable, by an explicit specification function proved equal to the code). The connection-level threading through the channel order is being added (ConnP); the monitor checks every flush on the implementation.",
+ "C15": "Proof (Coq) for every state of a reliable send channel: a part is transmitted only if never sent or resend_time has elapsed (no_early_resend), every transmission stamps the current time and untransmitted parts keep theirs, every due part is transmitted when the budget covers the backlog plus one slice (prompt_all; the exact slack the slice loop needs is a documented quirk), no part twice in a tick, and an acknowledged message or slice is never transmitted again.",
  "C16": "Proof (Coq) of the varint and packet round trips for all values below 2^62, of decode-then-reencode stability for every decodable byte string, and that the ack ranges denote exactly the fed set while below the range limit (and the newest ranges beyond it). Netcode packet/token round trips are checked differentially and are being added as theorems.",
  "C17": "Proof (Coq) that opening succeeds exactly on the output of seal for the same key, nonce and associated data (so any altered byte, truncation, other key or protocol id yields None) for both AEADs, over an executable RFC 8439 model validated against the crate byte for byte. Nonce uniqueness is checked by the monitor on every emitted datagram; its theorem is being added. Unforgeability itself is an assumption.",
 }
